@@ -674,7 +674,7 @@ func ruleMark(r *core.Reporter) {
 				if a.V == nil && a.Op == token.EQL {
 					if _, f, ok := fieldOfLoad(a.X); ok && f == "status" {
 						if v, okc := ir.ConstInt(a.Y); okc {
-							start := ir.Pt{B: ii.If.Block().Succs[ii.EdgeWhen(true)], I: 0}
+							start := ir.EdgePt(ii.If.Block(), ii.EdgeWhen(true))
 							if ir.Reach([]ir.Pt{start}, ir.Opts{}).Reached[st] {
 								statusCovered[v] = true
 							}
@@ -691,7 +691,7 @@ func ruleMark(r *core.Reporter) {
 			// and the scan leaves early only on that edge
 			okScan := true
 			for _, hw := range childWork {
-				start := ir.Pt{B: hw.If.Block().Succs[hw.EdgeWhen(true)], I: 0}
+				start := ir.EdgePt(hw.If.Block(), hw.EdgeWhen(true))
 				if ir.Reach([]ir.Pt{start}, ir.Opts{Stop: func(in ssa.Instruction) bool { return in == ssa.Instruction(hw.If) }}).Reached[st] {
 					okScan = false
 				}
@@ -795,7 +795,7 @@ func ruleMark(r *core.Reporter) {
 				okCover = false
 				continue
 			}
-			body := ir.Pt{B: l.If.Block().Succs[l.EdgeWhen(true)], I: 0}
+			body := ir.EdgePt(l.If.Block(), l.EdgeWhen(true))
 			exit := l.If.Block().Succs[l.EdgeWhen(false)]
 			res := ir.Reach([]ir.Pt{body}, ir.Opts{Stop: func(in ssa.Instruction) bool { return in == ssa.Instruction(l.If) }, EdgeOK: func(b *ssa.BasicBlock, sidx int) bool {
 				return !(b == hw.If.Block() && sidx == hw.EdgeWhen(true))
